@@ -94,12 +94,16 @@ def same(f, io, mo):
     implementation only"""
     if f[0] in ("AS", "AC"):
         return bool(io) and bool(mo) and io[0] == mo[0]
+    if f[0] == "AH":                     # the RootCAs pool sizes are an observation of the implementation only
+        return io[:2] == mo[:2]
     return io == mo
 
 
 def classify(f, io):
     if f[0] == "AV":
         return "AV:" + f[2] + ":" + " ".join(io)
+    if f[0] == "AH":
+        return "AH:" + f[3] + ":" + " ".join(io[:2])
     if f[0] == "PA":
         return "PA:" + f[2] + ":" + f[5] + ":" + (io[0] if io else "none")
     if f[0] == "PD":
@@ -151,6 +155,24 @@ def predicate(f, io):
             return False, "server with ClientAuth=%d completed although the client script is an attack (%s)" % (auth, attack)
         if io[0] != "ok" and attack in ("honest_cert", "chain_honest"):
             return False, "control run (honest client with certificate) did not complete"
+        if io[0] != "ok" and attack == "honest_nocert" and auth in (0, 1, 3):
+            return False, "control run (honest client without certificate, ClientAuth=%d permits it) did not complete" % auth
+        return True, ""
+    if op == "AH":
+        # a history of two connections on ONE client Config: what a peer sent in the first must not change what the second
+        # accepts; the trust pool is never modified by a handshake
+        sc = f[3]
+        if len(io) < 5:
+            return False, "incomplete observation"
+        want1 = "err" if sc == "ca_inject" else "ok"
+        want2 = "ok" if sc == "honest_twice" else "err"
+        if io[0] != want1:
+            return False, "first connection of %s: %s" % (sc, io[0])
+        if io[1] != want2:
+            return False, ("second connection completed with certificates of a CA that is not in RootCAs (%s)" % sc) if want2 == "err" \
+                          else "second honest connection did not complete"
+        if not (io[2] == io[3] == io[4]):
+            return False, "Config.RootCAs changed size over the handshakes: %s -> %s -> %s" % (io[2], io[3], io[4])
         return True, ""
     if op == "AV":
         # what the endpoints report, stated without the model: both or neither complete; an honest pair completes unless
